@@ -23,7 +23,7 @@ from pathlib import Path
 
 REPO = Path(os.environ.get("VERIF_REPO", "/repo"))
 SRC = REPO / "src" / "anyio" / "streams" / "text.py"
-OUT = Path(__file__).resolve().parent.parent / "coq" / "pure" / "TextGen.v"
+OUT = Path(os.environ["VERIF_GEN_OUT"]) if os.environ.get("VERIF_GEN_OUT") else Path(__file__).resolve().parent.parent / "coq" / "pure" / "TextGen.v"
 
 
 class Refused(Exception):
@@ -54,6 +54,8 @@ LITERAL = {
     ("TextStream", "send"): "await self._send_stream.send(item)",
     ("TextStream", "send_eof"): "await self.transport_stream.send_eof()",
     ("TextStream", "aclose"): "await self._send_stream.aclose(); await self._receive_stream.aclose()",
+    ("TextConnectable", "__init__"): "self.connectable = connectable",
+    ("TextConnectable", "connect"): "stream = await self.connectable.connect(); return TextStream(stream)",
     ("TextStream", "extra_attributes"): "return {**self._send_stream.extra_attributes, **self._receive_stream.extra_attributes}",
 }
 METHODS = {
@@ -61,6 +63,69 @@ METHODS = {
     "TextSendStream": ["__post_init__", "aclose", "extra_attributes", "send"],
     "TextStream": ["__post_init__", "aclose", "extra_attributes", "receive", "send", "send_eof"],
 }
+
+
+MODULE_LEVEL = [
+    "from __future__ import annotations",
+    "__all__ = ('TextConnectable', 'TextReceiveStream', 'TextSendStream', 'TextStream')",
+    "import codecs",
+    "import sys",
+    "from collections.abc import Callable, Mapping",
+    "from dataclasses import InitVar, dataclass, field",
+    "from typing import Any",
+    "from ..abc import AnyByteReceiveStream, AnyByteSendStream, AnyByteStream, AnyByteStreamConnectable, ObjectReceiveStream, ObjectSendStream, ObjectStream, ObjectStreamConnectable",
+    "if sys.version_info >= (3, 12):\n    from typing import override\nelse:\n    from typing_extensions import override",
+]
+# class -> (decorators, bases, class-level statements, {method: (decorators, parameters)})
+SKELETON = {
+    "TextReceiveStream": (["dataclass(eq=False)"], ["ObjectReceiveStream[str]"],
+                          ["transport_stream: AnyByteReceiveStream", "encoding: InitVar[str] = 'utf-8'",
+                           "errors: InitVar[str] = 'strict'", "_decoder: codecs.IncrementalDecoder = field(init=False)"],
+                          {"__post_init__": ([], ["self", "encoding", "errors"]), "receive": ([], ["self"]),
+                           "aclose": ([], ["self"]), "extra_attributes": (["property"], ["self"])}),
+    "TextSendStream": (["dataclass(eq=False)"], ["ObjectSendStream[str]"],
+                       ["transport_stream: AnyByteSendStream", "encoding: InitVar[str] = 'utf-8'", "errors: str = 'strict'",
+                        "_encoder: codecs.IncrementalEncoder = field(init=False)"],
+                       {"__post_init__": ([], ["self", "encoding"]), "send": ([], ["self", None]),
+                        "aclose": ([], ["self"]), "extra_attributes": (["property"], ["self"])}),
+    "TextStream": (["dataclass(eq=False)"], ["ObjectStream[str]"],
+                   ["transport_stream: AnyByteStream", "encoding: InitVar[str] = 'utf-8'", "errors: InitVar[str] = 'strict'",
+                    "_receive_stream: TextReceiveStream = field(init=False)", "_send_stream: TextSendStream = field(init=False)"],
+                   {"__post_init__": ([], ["self", "encoding", "errors"]), "receive": ([], ["self"]), "send": ([], ["self", "item"]),
+                    "send_eof": ([], ["self"]), "aclose": ([], ["self"]), "extra_attributes": (["property"], ["self"])}),
+    "TextConnectable": ([], ["ObjectStreamConnectable[str]"], [],
+                        {"__init__": ([], ["self", "connectable"]), "connect": (["override"], ["self"])}),
+}
+
+
+def check_skeleton(mod):
+    """everything that is not a method body: imports, module-level and class-level statements, decorators, signatures"""
+    def is_doc(x):
+        return isinstance(x, ast.Expr) and isinstance(x.value, ast.Constant) and isinstance(x.value.value, str)
+    got = [ast.unparse(n) for n in mod.body if not isinstance(n, ast.ClassDef) and not is_doc(n)]
+    if got != MODULE_LEVEL:
+        diff = [g for g in got if g not in MODULE_LEVEL] + [f"(missing) {w}" for w in MODULE_LEVEL if w not in got]
+        refuse("module", mod, f"module-level statements differ from the checked literal: {diff[:3]}")
+    classes = [n for n in mod.body if isinstance(n, ast.ClassDef)]
+    if [c.name for c in classes] != list(SKELETON):
+        refuse("module", mod, f"classes differ: {[c.name for c in classes]}")
+    for c in classes:
+        decos, bases, stmts, methods = SKELETON[c.name]
+        if [ast.unparse(d) for d in c.decorator_list] != decos or [ast.unparse(b) for b in c.bases] != bases or c.keywords:
+            refuse(c.name, c, "class decorators / bases differ")
+        other = [ast.unparse(x) for x in c.body if not isinstance(x, (ast.FunctionDef, ast.AsyncFunctionDef)) and not is_doc(x)]
+        if other != stmts:
+            refuse(c.name, c, f"class-level statements differ: {other}")
+        defs = [x for x in c.body if isinstance(x, (ast.FunctionDef, ast.AsyncFunctionDef))]
+        if sorted(d.name for d in defs) != sorted(methods):
+            refuse(c.name, c, f"set of methods differs: {sorted(d.name for d in defs)}")
+        for d in defs:
+            wd, wparams = methods[d.name]
+            params = [a.arg for a in d.args.posonlyargs + d.args.args]
+            if ([ast.unparse(x) for x in d.decorator_list] != wd or len(params) != len(wparams)
+                    or any(w is not None and w != g for w, g in zip(wparams, params)) or d.args.defaults
+                    or d.args.vararg or d.args.kwarg or d.args.kwonlyargs):
+                refuse(f"{c.name}.{d.name}", d, f"decorators / signature differ: {[ast.unparse(x) for x in d.decorator_list]} {params}")
 
 
 class Renamer(ast.NodeTransformer):
@@ -91,14 +156,20 @@ def slot_of(v):
 class Method:
     def __init__(self, fn, params: dict):
         self.fn, self.name, self.map = fn, fn.name, dict(params)
+        self.params, self.owner = set(params), {}
 
     def canon(self, node) -> str:
+        # every name that is read must be a parameter or a local bound earlier (the slot names are ordinary identifiers)
+        for n in ast.walk(node):
+            if isinstance(n, ast.Name) and isinstance(n.ctx, ast.Load) and n.id not in self.map and n.id != "self":
+                refuse(self.name, n, f"name `{n.id}` is read but not bound")
         return ast.unparse(Renamer(self.map).visit(copy.deepcopy(node)))
 
     def stmt(self, s, in_loop: bool) -> str:
         if isinstance(s, ast.While):
-            if in_loop or s.orelse or ast.unparse(s.test) != "True":
-                refuse(self.name, s, "loop outside the grammar")
+            # a loop is accepted only as the WHOLE body of the method (TextImp.texec runs a loop only there)
+            if in_loop or s.orelse or ast.unparse(s.test) != "True" or body_of(self.fn) != [s]:
+                refuse(self.name, s, "loop outside the grammar (only `while True:` as the whole method body)")
             return f"(TWhileTrue {self.seq(s.body, True)})"
         if isinstance(s, ast.If):
             if self.canon(s) != "if decoded:\n    return decoded":
@@ -109,6 +180,9 @@ class Method:
             sl = slot_of(s.value)
             if sl is None:
                 refuse(self.name, s, f"binding outside the table: {ast.unparse(s)}")
+            owner = self.owner.setdefault(sl, s.targets[0].id)
+            if owner != s.targets[0].id or s.targets[0].id in self.params:
+                refuse(self.name, s, f"slot `{sl}` is bound through two different names (`{owner}`, `{s.targets[0].id}`) or a parameter is rebound")
             self.map[s.targets[0].id] = sl
             k = f"{sl} = {value_txt}"
         elif isinstance(s, ast.Expr):
@@ -131,13 +205,8 @@ class Method:
 
 def generate() -> dict:
     mod = ast.parse(SRC.read_text())
+    check_skeleton(mod)
     classes = {n.name: n for n in mod.body if isinstance(n, ast.ClassDef)}
-    for cname, want in METHODS.items():
-        if cname not in classes:
-            refuse("module", mod, f"class {cname} missing")
-        got = sorted(n.name for n in classes[cname].body if isinstance(n, (ast.FunctionDef, ast.AsyncFunctionDef)))
-        if got != sorted(want):
-            refuse(cname, classes[cname], f"set of methods differs: {got}")
     for (cname, mname), want in LITERAL.items():
         fn = next(n for n in classes[cname].body if isinstance(n, (ast.FunctionDef, ast.AsyncFunctionDef)) and n.name == mname)
         got = "; ".join(ast.unparse(s) for s in body_of(fn))
